@@ -442,8 +442,11 @@ def c14_program(rng):
         feats.append(f"modules:{nm + 1}")
         for i in range(nm):
             mn = ["ma", "mb", "mc"][i]
+            # (every module owns a function literal and prints it: what a function value prints must not depend on
+            # the order in which the modules are compiled)
             mods[mn] = (f'pub let g{mn} = "{mn}-global";\nlet priv{mn} = 1;\n'
-                        f'pub fn f{mn}() {{ println("{mn}.f", g{mn}); g{mn} = g{mn} + "!"; }}\nfn main() {{ }}')
+                        f'pub fn f{mn}() {{ let lam{mn} = fn() -> int {{ {i} }}; println("{mn}.f", g{mn}, lam{mn}, lam{mn}(), f{mn}); '
+                        f'g{mn} = g{mn} + "!"; }}\nfn main() {{ }}')
             extra = ", unused_" + mn if rng.random() < 0.2 else ""
             imports += f"import {{ f{mn}, g{mn}{extra} }} from {mn};\n"
             if extra:
@@ -453,5 +456,6 @@ def c14_program(rng):
         # a rejected program: several diagnostics at once (their multiset must be stable)
         body += ["let t1: int = \"s\";", "let t2: str = 1;", "undefined_name();"]
         feats.append("rejected")
+    body += ["let lam = fn() -> int { 9 };", "println(lam, lam(), main);"]
     mods["main"] = imports + "\n".join(fns) + "\nfn main() {\n  " + "\n  ".join(body) + "\n}"
     return mods, feats
